@@ -75,10 +75,13 @@ TEXT = {
             'an EQUIVALENCE for whole streams of any length: the first request the whole-stream parser delivers is x iff the '
             'stream starts with a well-formed encoding of x (lines within the limit, headers acceptable under the C15 rules, body '
             'of exactly Content-Length <= L bytes), delivered verbatim, parsing continuing on the rest (pipelining); carried to every '
-            'read schedule of the implementation model by C01. Only the stream-level "first offending element" statement is not a '
-            'single theorem (its ingredients are); the implementation is compared with an independent Python recogniser of the '
+            'read schedule of the implementation model by C01; and the error outcome classified for whole streams: the parser '
+            'reports error e after outputs o IFF the stream is a sequence of well-formed encodings (o = exactly their deliveries) '
+            'followed by a tail whose first incomplete request has fault e (line too long, bad request line, bad/too long header '
+            'line after good ones, declared length above the limit at the blank line), i.e. the first offending element in stream '
+            'order. The implementation is compared with an independent Python recogniser of the '
             'grammar, error kinds included, on generated and corrupted streams.', 'DESIGN.md section 5 C02',
-            'Coq proof (grammar as a bi-implication by inversion of the step function) + independent recogniser oracle'),
+            'Coq proof (grammar and error classification as bi-implications by inversion of the step function) + independent recogniser oracle'),
     'C03': ('Coq theorems: Request::try_from reaches none of its 7 modelled panic sites for any bytes and max_len (CRLFCRLF '
             'offset lemma); from every state satisfying the connection invariant, every call (try_read with any result within '
             'recvmsg\'s contract, try_write with any result within write\'s contract, enqueue, pop, clear, set limit) keeps the '
@@ -90,17 +93,19 @@ TEXT = {
     'C14': ('Coq theorems: whenever Request::try_from accepts a slice, the connection parser fed the same bytes (lines within '
             'the line limit, declared length within the payload limit) delivers as its first request exactly the same request '
             '(all fields and body) -- proved through a characterisation of split("\\r\\n"), the "first CRLFCRLF" cut and the C02 '
-            'grammar equivalence; max_len rule; totality of the one-shot parser. PARTIAL: the converse implication (connection '
-            'delivers exactly one request, nothing left => one-shot accepts, except GET with a body) is decided on every run by '
-            'executing both entry points of the implementation on the same slices and comparing field by field.',
-            'DESIGN.md section 5 C14', 'Coq proof (one direction) + differential comparison of the two entry points'),
+            'grammar equivalence; conversely, when the connection parser delivers exactly one request from a slice, consumes all '
+            'of it and needs no more (and the block has a header line or no body), try_from accepts the same request; the '
+            'hypothesis is shown satisfiable for every well-formed encoding; max_len rule; totality of the one-shot parser. '
+            'Both entry points of the implementation are also executed on the same slices and compared field by field.',
+            'DESIGN.md section 5 C14', 'Coq proof (both implications) + differential comparison of the two entry points'),
     'C15': ('Coq theorems about parse_header_line / headers_try_from / encoding_try_from: names classified identically up to '
             'ASCII case (UTF-8 validity invariant under lower-casing) and through trim; invalid UTF-8 and missing colon fatal '
             '(iff); Content-Length accepted iff u32::from_str grammar (characterised); Accept-Encoding fatal iff empty or a '
             'token trims to identity;q=0 or *;q=0 without identity anywhere; unsupported Content-Type/Accept/Transfer-Encoding/'
             'Expect values ignored with headers unchanged; each recognised line touches only its field; custom entries '
-            'trimmed, last wins, frame; flags sticky over blocks; block = fold of lines. PARTIAL: invariance under arbitrary '
-            'Unicode padding is expressed through trim but the lemma trim(pad++x++pad) = trim x is not proved. Independent '
+            'trimmed, last wins, frame; flags sticky over blocks; block = fold of lines; white space around names and values is '
+            'ignored: trim(pad++x++pad) = trim x for every byte string x and every padding made of White_Space characters '
+            '(ASCII and non-ASCII, in UTF-8), hence a padded header line is treated exactly as the plain one. Independent '
             'Python statement of the rules as oracle on line lists and blocks.', 'DESIGN.md section 5 C15',
             'Coq proof (decision table as (bi-)implications, fold laws) + independent rules oracle'),
     'C07': ('Coq theorems over a world model (HttpServer/ClientConnection mirrored over the connection model + an explicit '
